@@ -325,6 +325,20 @@ def rule_R11_drain(text, log):
         out = out[:mm.start()] + new + out[mm.end():]
 
 
+def rule_R14_for_ref_pattern(text, log):
+    """for &x in E { B }  ->  for vx_r_x in E { let x = *vx_r_x; B }   (definition of the & pattern for Copy items)"""
+    out = text
+    while True:
+        mask = code_mask(out)
+        mm = next((m for m in re.finditer(r'\bfor\s+&\s*([A-Za-z_]\w*)\s+in\s+([^{]+?)\s*\{', out) if mask[m.start()]), None)
+        if not mm:
+            return out
+        x, e = mm.group(1), mm.group(2)
+        new = 'for vx_r_%s in %s { let %s = *vx_r_%s;' % (x, e, x, x)
+        log.append(('R14', norm_ws(mm.group(0)), new))
+        out = out[:mm.start()] + new + out[mm.end():]
+
+
 def rule_R10_inspect_err(text, log):
     """E.inspect_err(|_| { B })  ->  { let vx_r = E; if vx_r.is_err() { B } vx_r }
     (definition of Result::inspect_err for a closure that ignores its argument);
@@ -393,7 +407,7 @@ class Unit(object):
         self.clauses = []           # dict(fn, section, label, props, text)
         self.items = []             # extracted non-fn items
         self.cells = {}             # type -> [fields]
-        self.rules = set(['R1', 'R2', 'ATTR', 'R4', 'R5', 'R6', 'R10', 'R11'])
+        self.rules = set(['R1', 'R2', 'ATTR', 'R4', 'R5', 'R6', 'R10', 'R11', 'R14'])
         self.unit_props = []
         self.lemmas = []
         self.tmpl_fns = []          # hand-written exec/proof fns in template (name, props)
@@ -446,6 +460,8 @@ class Unit(object):
                 text = rule_R10_inspect_err(text, log)
             if 'R11' in self.rules:
                 text = rule_R11_drain(text, log)
+            if 'R14' in self.rules:
+                text = rule_R14_for_ref_pattern(text, log)
         for r in log:
             self.rule_log.append({'rule': r[0], 'before': r[1], 'after': r[2], 'where': ctx})
         return text
